@@ -1,5 +1,24 @@
-"""Run `cargo kani` over the scratch workspace and turn its JSON export into per-harness verdicts."""
-import os, subprocess, json, time, threading, signal, re, tempfile
+"""Compile harnesses with kani-compiler (`cargo kani --only-codegen`) and run the CBMC pipeline ourselves.
+
+Why not let kani-driver run CBMC: it asks CBMC for `--json-ui --verbosity 9` and parses tens of megabytes of trace JSON
+per harness in one process (measured: 7 s of a 10 s "verification time", 14 GB RSS with -j 14).  The commands below are the
+ones kani-driver 0.68 runs (`cargo kani -v`), with CBMC's plain-text UI instead of the JSON one:
+
+    goto-cc <h>.symtab.out kani_lib.c -o <h>.out
+    goto-cc <h>.out --function <mangled> -o <h>.out
+    goto-instrument --add-library --no-malloc-may-fail
+    goto-instrument --generate-function-body-options assert-false-assume-false --generate-function-body '.*' --drop-unused-functions
+    goto-instrument --ensure-one-backedge-per-target
+    cbmc --no-malloc-may-fail --no-undefined-shift-check --no-signed-overflow-check --nan-check
+         --no-self-loops-to-assumptions --no-pointer-primitive-check --object-bits 16 --unwind N
+         (--sat-solver cadical | --external-sat-solver kissat) --slice-formula
+
+Unwinding assertions stay on (CBMC 6 default), so a too-small bound is a failed property, never a silent truncation.
+Kani's reachability instrumentation is switched off at codegen (`--no-assertion-reach-checks`); vacuity is guarded by the
+harnesses' own `kani::cover!` witnesses, which Kani encodes as `assert(!cond)`: FAILURE = the witness is satisfied.
+"""
+import os, subprocess, json, time, re, glob, resource, signal, shutil
+from concurrent.futures import ThreadPoolExecutor
 from . import ws
 
 KANI_ENV = {
@@ -7,154 +26,261 @@ KANI_ENV = {
     "RUSTC_BOOTSTRAP": "1",
     "CARGO_TERM_COLOR": "never",
 }
+KANI_HOME = os.path.expanduser("~/.kani/kani-0.68.0")
+KANI_LIB_C = os.path.join(KANI_HOME, "library", "kani", "kani_lib.c")
+CBMC_FLAGS = ["--no-malloc-may-fail", "--no-undefined-shift-check", "--no-signed-overflow-check", "--nan-check",
+              "--no-self-loops-to-assumptions", "--no-pointer-primitive-check", "--object-bits", "16"]
+
+PROP_LINE = re.compile(r"^\[(?P<name>[^\]]+)\] (?:line (?P<line>\d+) )?(?P<desc>.*): (?P<status>SUCCESS|FAILURE|UNKNOWN|ERROR)$")
+HEAD_LINE = re.compile(r"^(?P<file>\S.*) function (?P<fn>.+)$")
 
 
-class Watchdog(threading.Thread):
-    """Kills cbmc / goto-instrument processes of our process group whose RSS exceeds the cap.
-    A killed solver shows up as a harness without a verdict -> inconclusive, never a pass."""
-
-    def __init__(self, pgid, rss_cap_kb):
-        super().__init__(daemon=True)
-        self.pgid = pgid
-        self.cap = rss_cap_kb
-        self.stop = False
-        self.killed = []
-
-    def run(self):
-        while not self.stop:
-            try:
-                out = subprocess.run(["ps", "-eo", "pid,pgid,rss,comm"], capture_output=True, text=True).stdout
-                for line in out.splitlines()[1:]:
-                    parts = line.split(None, 3)
-                    if len(parts) < 4:
-                        continue
-                    pid, pgid, rss, comm = int(parts[0]), int(parts[1]), int(parts[2]), parts[3]
-                    if pgid == self.pgid and comm.strip() in ("cbmc", "goto-instrument", "goto-cc") and rss > self.cap:
-                        try:
-                            os.kill(pid, signal.SIGKILL)
-                            self.killed.append((pid, comm.strip(), rss))
-                        except ProcessLookupError:
-                            pass
-            except Exception:
-                pass
-            time.sleep(2)
+def versions():
+    out = {}
+    try:
+        out["cbmc"] = subprocess.run(["cbmc", "--version"], capture_output=True, text=True).stdout.strip()
+        out["kani"] = subprocess.run(["cargo", "kani", "--version"], capture_output=True, text=True).stdout.strip().split("\n")[0]
+    except Exception:
+        pass
+    return out
 
 
-def run_kani(pkg, harnesses, jobs=12, harness_timeout=300, rss_cap_gb=10, wall_cap=None,
-             extra_args=None, log_path=None, features=None):
-    """harnesses: list of fully qualified names. Returns (results, meta).
-    results[name] = {status: pass|fail|inconclusive, failed:[{desc,function,file,line,category}],
-                     covers:{satisfied,unsat}, checks, proved, solver_s, symex_s, reason}"""
-    os.makedirs(ws.CACHE, exist_ok=True)
-    fd, jpath = tempfile.mkstemp(prefix="kani-", suffix=".json", dir=ws.CACHE)
-    os.close(fd)
-    os.remove(jpath)
-    cmd = ["cargo", "kani", "-p", pkg, "-Z", "stubbing", "-Z", "unstable-options",
-           "-j", str(jobs), "--output-format", "terse",
-           "--harness-timeout", "%ds" % harness_timeout,
-           "--export-json", jpath, "--exact"]
-    if features:
-        cmd += ["--features", features]
-    for h in harnesses:
-        cmd += ["--harness", h]
-    if extra_args:
-        cmd += extra_args
+def codegen(pkg, feature_args, log_path, need=()):
+    """-> (ok, {pretty_name: metadata}, wall_s)"""
+    cmd = ["cargo", "kani", "-p", pkg, "-Z", "stubbing", "--only-codegen", "--no-assertion-reach-checks"] + list(feature_args)
     env = dict(os.environ)
     env.update(KANI_ENV)
     t0 = time.time()
-    logf = open(log_path, "w") if log_path else subprocess.DEVNULL
-    p = subprocess.Popen(cmd, cwd=ws.WS, env=env, stdout=logf, stderr=subprocess.STDOUT, start_new_session=True)
-    wd = Watchdog(p.pid, int(rss_cap_gb * 1024 * 1024))
-    wd.start()
-    timed_out = False
-    try:
-        p.wait(timeout=wall_cap)
-    except subprocess.TimeoutExpired:
-        timed_out = True
+    # `--only-codegen` still makes kani-driver link every harness with goto-cc, one after the other; we do that step
+    # ourselves in parallel, so the driver is stopped as soon as cargo reports that compilation has finished.
+    with open(log_path, "w") as lf:
+        p = subprocess.Popen(cmd, cwd=ws.WS, env=env, stdout=lf, stderr=subprocess.STDOUT, start_new_session=True)
+    finished = False
+    while True:
         try:
-            os.killpg(p.pid, signal.SIGKILL)
-        except ProcessLookupError:
+            p.wait(timeout=1.0)
+            break
+        except subprocess.TimeoutExpired:
             pass
-        p.wait()
-    wd.stop = True
-    if log_path:
-        logf.close()
+        try:
+            with open(log_path, errors="replace") as f:
+                t = f.read()
+        except OSError:
+            t = ""
+        if re.search(r"^\s*Finished `dev` profile", t, re.M):
+            finished = True
+            time.sleep(0.5)
+            try:
+                os.killpg(p.pid, signal.SIGKILL)
+            except ProcessLookupError:
+                pass
+            p.wait()
+            break
     wall = time.time() - t0
-    results = {h: {"status": "inconclusive", "reason": "no verdict reported", "failed": [], "checks": 0, "proved": 0,
-                   "covers_sat": 0, "covers_unsat": 0, "solver_s": 0.0, "symex_s": 0.0} for h in harnesses}
-    meta = {"wall_s": wall, "rc": p.returncode, "timed_out": timed_out, "killed": wd.killed, "cmd": " ".join(cmd[:12]) + " ...",
-            "kani_version": None, "cbmc_version": None, "build_failed": False}
-    log_txt = ""
-    if log_path and os.path.exists(log_path):
-        with open(log_path, errors="replace") as f:
-            log_txt = f.read()
-    if not os.path.exists(jpath):
-        meta["build_failed"] = True
-        meta["log_tail"] = log_txt[-4000:]
-        for h in harnesses:
-            results[h]["reason"] = "cargo kani produced no JSON (build error or killed)"
-        return results, meta
-    with open(jpath) as f:
-        j = json.load(f)
-    os.remove(jpath)
-    meta["kani_version"] = j.get("tools", {}).get("kani")
-    meta["cbmc_version"] = j.get("tools", {}).get("cbmc")
-    stats = {c["harness_id"]: c.get("cbmc_stats", {}) for c in j.get("cbmc", [])}
-    errs = {e["harness_id"]: e for e in j.get("error_details", [])}
-    for r in j.get("verification_results", {}).get("results", []):
-        h = r["harness_id"]
-        if h not in results:
-            continue
-        res = results[h]
-        checks = r.get("checks", [])
-        failed, undet, csat, cunsat, proved = [], 0, 0, 0, 0
-        for c in checks:
-            st = c.get("status", "")
-            cat = c.get("category", "")
-            entry = {"desc": c.get("description", ""), "function": c.get("function", ""),
-                     "file": (c.get("location") or {}).get("file", ""), "line": (c.get("location") or {}).get("line", ""),
-                     "category": cat}
-            if st == "Failure":
-                failed.append(entry)
-            elif st in ("Undetermined",):
-                undet += 1
-            elif st == "Satisfied":
-                csat += 1
-            elif st in ("Unsatisfiable",):
-                cunsat += 1
-                res.setdefault("unsat_covers", []).append(entry["desc"])
-            elif st in ("Success", "Unreachable"):
-                proved += 1
-        res["failed"] = failed
-        res["checks"] = len(checks)
-        res["proved"] = proved
-        res["covers_sat"] = csat
-        res["covers_unsat"] = cunsat
-        res["undetermined"] = undet
-        res["duration_s"] = r.get("duration_ms", 0) / 1000.0
-        st = stats.get(h, {})
-        res["solver_s"] = st.get("runtime_decision_procedure_s", 0.0) or 0.0
-        res["symex_s"] = st.get("runtime_symex_s", 0.0) or 0.0
-        res["program_size"] = st.get("size_program_expression", 0)
-        res["vccs"] = st.get("vccs_remaining", 0)
-        status = r.get("status")
-        e = errs.get(h, {})
-        if status == "Success" and not failed and undet == 0:
-            res["status"] = "pass"
-            res["reason"] = ""
-        elif failed:
-            res["status"] = "fail"
-            res["reason"] = e.get("error_type", "failed checks")
+    if not finished:
+        try:
+            with open(log_path, errors="replace") as f:
+                finished = bool(re.search(r"^\s*Finished `dev` profile", f.read(), re.M))
+        except OSError:
+            pass
+    if not finished:
+        return False, {}, wall
+    base = os.path.join(ws.WS, "target", "kani", "x86_64-unknown-linux-gnu", "debug", "build", pkg)
+    metas = sorted(glob.glob(os.path.join(base, "*", "out", "*.kani-metadata.json")), key=os.path.getmtime, reverse=True)
+    if not metas:
+        return False, {}, wall
+    hs = {}
+    for mpath in metas:
+        with open(mpath) as f:
+            md = json.load(f)
+        cand = {h["pretty_name"]: h for h in md.get("proof_harnesses", [])}
+        if all(n in cand for n in need) and all(os.path.exists(h["goto_file"]) for n, h in cand.items() if n in need):
+            hs = cand
+            break
+    if not hs and need:
+        return False, {}, wall
+    # old codegen directories (other feature sets / hashes) are only garbage once superseded: keep the newest 6
+    for m in metas[6:]:
+        shutil.rmtree(os.path.dirname(os.path.dirname(m)), ignore_errors=True)
+    return True, hs, wall
+
+
+def _limit(rss_gb):
+    def f():
+        os.setsid()
+        cap = int(rss_gb * 1024 ** 3)
+        resource.setrlimit(resource.RLIMIT_AS, (cap, cap))
+    return f
+
+
+def _run(cmd, timeout, rss_gb, out_path=None):
+    t0 = time.time()
+    try:
+        if out_path:
+            with open(out_path, "w") as of:
+                p = subprocess.Popen(cmd, stdout=of, stderr=subprocess.STDOUT, preexec_fn=_limit(rss_gb))
         else:
-            res["status"] = "inconclusive"
-            res["reason"] = "%s/%s" % (e.get("error_type", status), e.get("exit_status", ""))
-    # harness-level timeouts are only visible in the log
-    for m in re.finditer(r"Checking harness (\S+?)\.\.\.", log_txt):
+            p = subprocess.Popen(cmd, stdout=subprocess.DEVNULL, stderr=subprocess.DEVNULL, preexec_fn=_limit(rss_gb))
+        try:
+            rc = p.wait(timeout=timeout)
+            return rc, time.time() - t0, False
+        except subprocess.TimeoutExpired:
+            try:
+                os.killpg(p.pid, signal.SIGKILL)
+            except ProcessLookupError:
+                pass
+            p.wait()
+            return -9, time.time() - t0, True
+    except Exception as e:
+        return -1, time.time() - t0, False
+
+
+def parse_cbmc(text):
+    """-> dict(failed=[...], covers_sat=[...], covers_unsat=[...], checks=int, proved=int, stats)"""
+    cur_file, cur_fn = "", ""
+    failed, csat, cunsat = [], [], []
+    checks = proved = unknown = 0
+    in_results = False
+    for line in text.split("\n"):
+        if line.startswith("** Results:"):
+            in_results = True
+            continue
+        if not in_results:
+            continue
+        m = PROP_LINE.match(line)
+        if m:
+            name, desc, status = m.group("name"), m.group("desc"), m.group("status")
+            cls = name.rsplit(".", 2)[-2] if name.count(".") >= 2 else name.split(".")[0]
+            desc = re.sub(r"^\[KANI_CHECK_ID_[^\]]*\]\s*", "", desc).strip()
+            desc = desc.strip('"')
+            checks += 1
+            if cls == "cover":
+                (csat if status == "FAILURE" else cunsat).append(desc)
+                continue
+            if cls == "reachability_check":
+                checks -= 1
+                continue
+            if status == "SUCCESS":
+                proved += 1
+            elif status == "FAILURE":
+                failed.append({"desc": desc, "function": cur_fn, "file": cur_file, "line": m.group("line") or "",
+                               "category": cls, "property": name})
+            else:
+                unknown += 1
+            continue
+        h = HEAD_LINE.match(line)
+        if h and not line.startswith("["):
+            cur_file, cur_fn = h.group("file"), h.group("fn")
+    stats = {}
+    m = re.findall(r"Runtime Solver: ([0-9.e+-]+)s", text)
+    stats["solver_s"] = sum(float(x) for x in m)
+    m = re.findall(r"Runtime decision procedure: ([0-9.e+-]+)s", text)
+    stats["decision_s"] = sum(float(x) for x in m)
+    m = re.search(r"Runtime Symex: ([0-9.e+-]+)s", text)
+    stats["symex_s"] = float(m.group(1)) if m else 0.0
+    m = re.search(r"size of program expression: (\d+) steps", text)
+    stats["program_steps"] = int(m.group(1)) if m else 0
+    m = re.findall(r"(\d+) variables, (\d+) clauses", text)
+    if m:
+        stats["sat_variables"], stats["sat_clauses"] = int(m[-1][0]), int(m[-1][1])
+    done = "VERIFICATION SUCCESSFUL" in text or "VERIFICATION FAILED" in text
+    return {"failed": failed, "covers_sat": csat, "covers_unsat": cunsat, "checks": checks, "proved": proved,
+            "unknown": unknown, "stats": stats, "done": done}
+
+
+def verify_one(meta, unwind, solver, timeout, rss_gb, keep_log_dir):
+    """run the post-codegen pipeline for one harness -> result dict"""
+    sym = meta["goto_file"]
+    mangled = meta["mangled_name"]
+    out = sym[:-len(".symtab.out")] + ".out"
+    res = {"status": "inconclusive", "reason": "", "failed": [], "checks": 0, "proved": 0, "covers_sat": 0, "covers_unsat": 0,
+           "unsat_covers": [], "sat_covers": [], "solver_s": 0.0, "symex_s": 0.0, "wall_s": 0.0}
+    t0 = time.time()
+    steps = [
+        ["goto-cc", sym, KANI_LIB_C, "-o", out],
+        ["goto-cc", out, "--function", mangled, "-o", out],
+        ["goto-instrument", "--add-library", "--no-malloc-may-fail", out, out],
+        ["goto-instrument", "--generate-function-body-options", "assert-false-assume-false", "--generate-function-body", ".*",
+         "--drop-unused-functions", out, out],
+        ["goto-instrument", "--ensure-one-backedge-per-target", out, out],
+    ]
+    for st in steps:
+        rc, w, to = _run(st, max(60, timeout), rss_gb)
+        if rc != 0:
+            res["reason"] = "%s failed (rc %s%s)" % (st[0] + " " + st[1][:24], rc, ", timeout" if to else "")
+            res["wall_s"] = time.time() - t0
+            return res
+    cmd = ["cbmc"] + CBMC_FLAGS + ["--unwind", str(unwind or 1)]
+    if solver == "kissat":
+        cmd += ["--external-sat-solver", "kissat"]
+    else:
+        cmd += ["--sat-solver", "cadical"]
+    cmd += ["--slice-formula", out, "--verbosity", "8"]
+    logp = os.path.join(keep_log_dir, re.sub(r"[^A-Za-z0-9_]", "_", meta["pretty_name"])[-150:] + ".cbmc.txt")
+    rc, w, to = _run(cmd, timeout, rss_gb, out_path=logp)
+    res["wall_s"] = time.time() - t0
+    try:
+        with open(logp, errors="replace") as f:
+            text = f.read()
+    except FileNotFoundError:
+        text = ""
+    if to:
+        res["reason"] = "cbmc timeout after %ds" % timeout
+        return res
+    pr = parse_cbmc(text)
+    res.update({"failed": pr["failed"], "checks": pr["checks"], "proved": pr["proved"], "covers_sat": len(pr["covers_sat"]),
+                "covers_unsat": len(pr["covers_unsat"]), "unsat_covers": pr["covers_unsat"], "sat_covers": pr["covers_sat"],
+                "solver_s": pr["stats"].get("decision_s", 0.0), "symex_s": pr["stats"].get("symex_s", 0.0),
+                "program_steps": pr["stats"].get("program_steps", 0), "sat_variables": pr["stats"].get("sat_variables", 0),
+                "undetermined": pr["unknown"]})
+    if not pr["done"]:
+        tail = text[-400:].replace("\n", " | ")
+        res["reason"] = "cbmc ended without a verdict (rc %s; out of memory cap %sGB?) %s" % (rc, rss_gb, tail[-200:])
+        return res
+    if pr["failed"]:
+        res["status"] = "fail"
+    elif pr["unknown"]:
+        res["status"] = "inconclusive"
+        res["reason"] = "%d properties UNKNOWN" % pr["unknown"]
+    else:
+        res["status"] = "pass"
+        try:
+            os.remove(logp)
+        except OSError:
+            pass
+    try:
+        os.remove(out)
+    except OSError:
         pass
-    for h in harnesses:
-        if results[h]["status"] == "inconclusive" and results[h]["reason"] == "no verdict reported":
-            if timed_out:
-                results[h]["reason"] = "wall cap reached"
-            elif re.search(r"timed out|TIMEOUT|Timeout", log_txt):
-                results[h]["reason"] = "harness timeout / killed (see log)"
+    return res
+
+
+def run_group(pkg, harnesses, feature_args, jobs, timeout, rss_gb, log_dir, tag):
+    """harnesses: list of model.H with .path/.unwind/.solver.  -> (results{name}, meta)"""
+    os.makedirs(log_dir, exist_ok=True)
+    blog = os.path.join(log_dir, "%s.build.log" % tag)
+    ok, mds, bwall = codegen(pkg, feature_args, blog, [h.path for h in harnesses])
+    meta = {"pkg": pkg, "build_wall_s": round(bwall, 1), "build_failed": not ok, "build_log": blog}
+    results = {}
+    if not ok:
+        with open(blog, errors="replace") as f:
+            t = f.read()
+        errs = re.findall(r"^error.*(?:\n.*){0,8}", t, re.M)
+        meta["log_tail"] = ("\n".join(errs[:6]) if errs else t[-3000:])
+        for h in harnesses:
+            results[h.name] = {"status": "inconclusive", "reason": "harness crate did not build", "failed": [], "checks": 0,
+                               "proved": 0, "covers_sat": 0, "covers_unsat": 0, "solver_s": 0.0, "symex_s": 0.0}
+        return results, meta
+    t0 = time.time()
+
+    def work(h):
+        md = mds.get(h.path)
+        if not md:
+            return h.name, {"status": "inconclusive", "reason": "harness not found in kani metadata", "failed": [], "checks": 0,
+                            "proved": 0, "covers_sat": 0, "covers_unsat": 0, "solver_s": 0.0, "symex_s": 0.0}
+        return h.name, verify_one(md, h.unwind, h.solver, timeout, rss_gb, log_dir)
+    with ThreadPoolExecutor(max_workers=jobs) as ex:
+        for name, r in ex.map(work, harnesses):
+            results[name] = r
+    meta["verify_wall_s"] = round(time.time() - t0, 1)
     return results, meta
